@@ -66,6 +66,17 @@ def grid_case(ctx, kind, shape, vals, L, merge_at):
             grid[c].accumulate(grid2[c])
         if not compare(ctx, kind, arr, grid, ncomp, case, 'after the merge'):
             return False
+        # keep using the receiver; the accumulator merged in must still agree with its own scalar grid
+        for v in vals[:2]:
+            obj = acclib.to_obj(v)
+            arr.accumulate(obj)
+            flat = np.asarray(obj, dtype=float).ravel()
+            for c in range(ncomp):
+                grid[c].accumulate(float(flat[c]))
+        if not compare(ctx, kind, arr, grid, ncomp, case, 'after observations following the merge'):
+            return False
+        if arr2.n > 0 and not compare(ctx, kind, arr2, grid2, ncomp, case, 'merged-in accumulator after the receiver was used further'):
+            return False
     return True
 
 
